@@ -28,7 +28,8 @@ import re
 
 __all__ = ['Extensions']
 
-parse_pattern = re.compile(r'^\s*([a-zA-Z0-9][a-zA-Z0-9-]*)\s*(.*?)\s*$')
+parse_pattern = re.compile(
+    r'^\s*([a-zA-Z0-9][a-zA-Z0-9-]*)\s*((?:.*\S)?)\s*$')
 line_pattern = re.compile(r'(.*?)\r?\n')
 
 
